@@ -77,6 +77,8 @@ pub struct T {
     pub dt: Dt,
     pub ot: i32,
     pub data: Vec<i64>,
+    /// common denominator of `data` (1 except for Resize `scales`): element value = data / den
+    pub den: i64,
 }
 
 impl T {
@@ -87,7 +89,12 @@ impl T {
             dt,
             ot: dt.onnx(),
             data,
+            den: 1,
         }
+    }
+    fn den(mut self, den: i64) -> T {
+        self.den = den;
+        self
     }
     fn ot(mut self, ot: i32) -> T {
         self.ot = ot;
@@ -100,7 +107,7 @@ impl T {
         T::new(vec![], dt, vec![v])
     }
     fn json(&self, init: bool) -> J {
-        json!({"p": true, "shape": self.shape, "dtype": self.dt.name(), "ot": self.ot, "data": self.data, "init": init})
+        json!({"p": true, "shape": self.shape, "dtype": self.dt.name(), "ot": self.ot, "data": self.data, "den": self.den, "init": init})
     }
     fn from_json(j: &J) -> Option<T> {
         if !j["p"].as_bool().unwrap_or(false) {
@@ -111,12 +118,13 @@ impl T {
             dt: Dt::from_name(j["dtype"].as_str().unwrap()),
             ot: j["ot"].as_i64().unwrap() as i32,
             data: j["data"].as_array().unwrap().iter().map(|x| x.as_i64().unwrap()).collect(),
+            den: j["den"].as_i64().unwrap_or(1),
         })
     }
     fn to_value(&self) -> Value {
         let sh = self.shape.as_slice();
         match self.dt {
-            Dt::F32 => Tensor::from_data(sh, self.data.iter().map(|v| *v as f32).collect::<Vec<_>>()).into(),
+            Dt::F32 => Tensor::from_data(sh, self.data.iter().map(|v| *v as f32 / self.den as f32).collect::<Vec<_>>()).into(),
             Dt::I32 => Tensor::from_data(sh, self.data.iter().map(|v| *v as i32).collect::<Vec<_>>()).into(),
             Dt::I8 => Tensor::from_data(sh, self.data.iter().map(|v| *v as i8).collect::<Vec<_>>()).into(),
             Dt::U8 => Tensor::from_data(sh, self.data.iter().map(|v| *v as u8).collect::<Vec<_>>()).into(),
@@ -126,7 +134,7 @@ impl T {
     fn to_onnx(&self, name: &str) -> onnx::Tensor {
         let d = &self.data;
         let data = match self.ot {
-            onnx::FLOAT => TensorData::F32(d.iter().map(|v| *v as f32).collect()),
+            onnx::FLOAT => TensorData::F32(d.iter().map(|v| *v as f32 / self.den as f32).collect()),
             onnx::INT32 => TensorData::I32(d.iter().map(|v| *v as i32).collect()),
             onnx::INT64 => TensorData::I64(d.clone()),
             onnx::UINT8 => TensorData::U8(d.iter().map(|v| *v as u8).collect()),
@@ -253,7 +261,7 @@ impl Case {
             .zip(&self.init)
             .map(|(t, init)| match t {
                 Some(t) => t.json(*init),
-                None => json!({"p": false, "shape": [], "dtype": "", "ot": 0, "data": [], "init": false}),
+                None => json!({"p": false, "shape": [], "dtype": "", "ot": 0, "data": [], "den": 1, "init": false}),
             })
             .collect();
         json!({"ev": "case", "id": id, "op": self.op, "tag": self.tag, "combo": self.combo, "attrs": J::Object(attrs), "akinds": kinds,
@@ -481,7 +489,10 @@ pub const OPS: &[&str] = &[
     "Shape", "Size", "Reshape", "Squeeze", "Unsqueeze", "Flatten", "Transpose", "Expand", "Tile", "Concat", "Split",
     "Slice", "Gather", "GatherElements", "GatherND", "ScatterElements", "ScatterND", "Pad", "ReduceSum", "ReduceProd",
     "ReduceMin", "ReduceMax", "ReduceSumSquare", "ReduceL1", "ReduceMean", "ArgMax", "ArgMin", "CumSum", "TopK",
-    "Trilu", "Range", "OneHot", "NonZero", "EyeLike", "ConstantOfShape", "DepthToSpace",
+    "Trilu", "Range", "OneHot", "NonZero", "EyeLike", "ConstantOfShape", "DepthToSpace", "MatMul", "Gemm",
+    "MatMulInteger", "Conv", "ConvTranspose", "ConvInteger", "MaxPool", "AveragePool", "GlobalMaxPool",
+    "GlobalAveragePool", "Resize", "CastLike", "Scatter", "Ceil", "Floor", "Round", "IsInf", "IsNaN", "PRelu",
+    "LeakyRelu", "ReverseSequence", "DequantizeLinear", "QuantizeLinear",
 ];
 
 fn gen_case(op: &str, r: &mut Rng) -> Case {
@@ -1138,6 +1149,303 @@ fn gen_case(op: &str, r: &mut Rng) -> Case {
                 .attr("mode", (!mode.is_empty()).then(|| AV::Str(mode.into())))
                 .tag(format!("mode={},b={b}", if mode.is_empty() { "d" } else { mode }))
         }
+        "MatMul" => {
+            let dt = *r.pick(&[Dt::F32, Dt::F32, Dt::I32]);
+            let klo = if r.chance(1, 12) { 0 } else { 1 };
+            let (m, k, n) = (r.range(1, 4) as usize, r.range(klo, 4) as usize, r.range(1, 4) as usize);
+            let kind = r.below(6);
+            let batch = dims(r, 1, 2, 3, true);
+            let (sa, sb, t): (Vec<usize>, Vec<usize>, &str) = match kind {
+                0 => (vec![k], vec![k], "vec.vec"),
+                1 => (vec![k], [operand_shape(r, &batch), vec![k, n]].concat(), "vec.mat"),
+                2 => ([operand_shape(r, &batch), vec![m, k]].concat(), vec![k], "mat.vec"),
+                3 | 4 => (vec![m, k], vec![k, n], "2d"),
+                _ => ([operand_shape(r, &batch), vec![m, k]].concat(), [operand_shape(r, &batch), vec![k, n]].concat(), "batched"),
+            };
+            c.input(tensor(r, &sa, dt, -5, 5)).input(tensor(r, &sb, dt, -5, 5)).tag(format!("{},{t}", dt.name()))
+        }
+        "Gemm" => {
+            let dt = *r.pick(&[Dt::F32, Dt::F32, Dt::F32, Dt::I32]);
+            let klo = if r.chance(1, 12) { 0 } else { 1 };
+            let (m, k, n) = (r.range(1, 4) as usize, r.range(klo, 4) as usize, r.range(1, 4) as usize);
+            let ta = opt_range(r, 0, 1);
+            let tb = opt_range(r, 0, 1);
+            let sa = if ta == Some(1) { vec![k, m] } else { vec![m, k] };
+            let sb = if tb == Some(1) { vec![n, k] } else { vec![k, n] };
+            let cs: Option<Vec<usize>> = match r.below(7) {
+                0 => None,
+                1 => Some(vec![]),
+                2 => Some(vec![1]),
+                3 => Some(vec![n]),
+                4 => Some(vec![m, 1]),
+                5 => Some(vec![1, n]),
+                _ => Some(vec![m, n]),
+            };
+            let alpha = if r.chance(1, 2) { Some(*r.pick(&[1i64, 2, -1, 0, 3])) } else { None };
+            let beta = if r.chance(1, 2) { Some(*r.pick(&[1i64, 2, -1, 0, 3])) } else { None };
+            let ct = cs.as_ref().map(|s| tensor(r, s, dt, -9, 9));
+            let t = format!("{},transA={},transB={},C={},alpha={},beta={}", dt.name(), b2s(ta), b2s(tb),
+                cs.map(|s| format!("{s:?}").replace(&m.to_string(), "M").replace(&n.to_string(), "N")).unwrap_or("none".into()),
+                alpha.is_some(), beta.is_some());
+            let tg = format!("{},transA={},transB={}", dt.name(), b2s(ta), b2s(tb));
+            c.input(tensor(r, &sa, dt, -5, 5)).input(tensor(r, &sb, dt, -5, 5)).opt_input(ct)
+                .attr("alpha", alpha.map(AV::Flt)).attr("beta", beta.map(AV::Flt)).int("transA", ta).int("transB", tb)
+                .tag(tg).combo(t)
+        }
+        "MatMulInteger" => {
+            let (da, db) = (*r.pick(&[Dt::U8, Dt::I8]), *r.pick(&[Dt::U8, Dt::I8]));
+            let (m, k, n) = (r.range(1, 4) as usize, r.range(1, 4) as usize, r.range(1, 4) as usize);
+            let batched = r.chance(1, 4);
+            let batch = dims(r, 1, 2, 2, false);
+            let (sa, sb) = if batched {
+                ([operand_shape(r, &batch), vec![m, k]].concat(), [operand_shape(r, &batch), vec![k, n]].concat())
+            } else {
+                (vec![m, k], vec![k, n])
+            };
+            let mut zp = |r: &mut Rng, dt: Dt, n: usize| -> (Option<T>, &'static str) {
+                match r.below(if batched { 3 } else { 4 }) {
+                    0 => (None, "none"),
+                    1 => (Some(tensor(r, &[], dt, -3, 9)), "scalar"),
+                    2 => (Some(tensor(r, &[1], dt, -3, 9)), "[1]"),
+                    _ => (Some(tensor(r, &[n], dt, -3, 9)), "vector"),
+                }
+            };
+            let (za, ta) = zp(r, da, m);
+            let (zb, tb) = if za.is_none() && r.chance(1, 2) { (None, "none") } else { zp(r, db, n) };
+            // an omitted a_zero_point with a present b_zero_point needs an empty input name: keep both or none/first
+            let za = if za.is_none() && zb.is_some() { Some(T::scalar(da, 0)) } else { za };
+            c.input(tensor(r, &sa, da, -9, 9)).input(tensor(r, &sb, db, -9, 9)).opt_input(za).opt_input(zb)
+                .tag(format!("{}x{},azp={ta},bzp={tb},batched={batched}", da.name(), db.name()))
+        }
+        "Conv" | "ConvInteger" | "ConvTranspose" => {
+            let nsp = *r.pick(&[1usize, 2, 2, 2, 3]);
+            let group = *r.pick(&[1usize, 1, 1, 2, 3]);
+            let cg = r.range(1, 2) as usize;
+            let mg = r.range(1, 2) as usize;
+            let n = r.range(1, 2) as usize;
+            let ks: Vec<usize> = (0..nsp).map(|_| r.range(1, 3) as usize).collect();
+            let strides: Vec<i64> = (0..nsp).map(|_| *r.pick(&[1i64, 1, 2, 3])).collect();
+            let dil: Vec<i64> = (0..nsp).map(|_| *r.pick(&[1i64, 1, 1, 2])).collect();
+            let ins: Vec<usize> = (0..nsp).map(|i| r.range(1, 5).max(if r.chance(9, 10) { ((ks[i] as i64 - 1) * dil[i] + 1) - 1 } else { 1 }) as usize).collect();
+            let auto = *r.pick(&["", "", "", "NOTSET", "VALID", "SAME_UPPER", "SAME_LOWER"]);
+            let explicit_pads = auto.is_empty() || auto == "NOTSET";
+            let pads: Option<Vec<i64>> = if explicit_pads && r.chance(2, 3) {
+                Some((0..2 * nsp).map(|_| *r.pick(&[0i64, 0, 1, 1, 2])).collect())
+            } else {
+                None
+            };
+            let has_strides = r.chance(3, 4);
+            let has_dil = r.chance(1, 2);
+            let has_ks = r.chance(2, 3);
+            let strides_a = has_strides.then(|| AV::Ints(strides.clone()));
+            let dil_a = has_dil.then(|| AV::Ints(dil.clone()));
+            let ks_a = has_ks.then(|| AV::Ints(ks.iter().map(|k| *k as i64).collect()));
+            let auto_a = (!auto.is_empty()).then(|| AV::Str(auto.into()));
+            let grp_a = if group == 1 && r.chance(1, 2) { None } else { Some(group as i64) };
+            let tagc = format!("{}d,group={},auto_pad={},pads={},strides={},dil={}", nsp, if group == 1 { "1" } else { ">1" },
+                if auto.is_empty() { "d" } else { auto }, pads.is_some(), has_strides && strides.iter().any(|s| *s > 1), has_dil && dil.iter().any(|d| *d > 1));
+            let tag = format!("auto_pad={}", if auto.is_empty() { "NOTSET" } else { auto });
+            if op == "ConvTranspose" {
+                let xs = [vec![n, cg * group], ins.clone()].concat();
+                let ws = [vec![cg * group, mg], ks.clone()].concat();
+                let opad: Option<Vec<i64>> = if r.chance(1, 3) {
+                    Some((0..nsp).map(|i| r.range(0, (strides[i].max(dil[i]) - 1).max(0))).collect())
+                } else {
+                    None
+                };
+                let bias = r.chance(1, 2).then(|| tensor(r, &[mg * group], Dt::F32, -5, 5));
+                let tagc = format!("{tagc},opad={},bias={}", opad.is_some(), bias.is_some());
+                c.input(tensor(r, &xs, Dt::F32, -4, 4)).input(tensor(r, &ws, Dt::F32, -3, 3)).opt_input(bias)
+                    .attr("auto_pad", auto_a).attr("dilations", dil_a).int("group", grp_a).attr("kernel_shape", ks_a)
+                    .attr("pads", pads.map(AV::Ints)).attr("strides", strides_a).attr("output_padding", opad.map(AV::Ints))
+                    .tag(tag).combo(tagc)
+            } else {
+                let xs = [vec![n, cg * group], ins.clone()].concat();
+                let ws = [vec![mg * group, cg], ks.clone()].concat();
+                if op == "Conv" {
+                    let bias = r.chance(1, 2).then(|| tensor(r, &[mg * group], Dt::F32, -5, 5));
+                    let tagc = format!("{tagc},bias={}", bias.is_some());
+                    c.input(tensor(r, &xs, Dt::F32, -4, 4)).input(tensor(r, &ws, Dt::F32, -3, 3)).opt_input(bias)
+                        .attr("auto_pad", auto_a).attr("dilations", dil_a).int("group", grp_a).attr("kernel_shape", ks_a)
+                        .attr("pads", pads.map(AV::Ints)).attr("strides", strides_a)
+                        .tag(tag).combo(tagc)
+                } else {
+                    let (dx, dw) = (*r.pick(&[Dt::U8, Dt::U8, Dt::I8]), *r.pick(&[Dt::U8, Dt::I8, Dt::I8]));
+                    let xz = r.chance(2, 3).then(|| tensor(r, &[], dx, -3, 9));
+                    let wz = if xz.is_some() && r.chance(1, 2) {
+                        Some(if r.chance(1, 3) { tensor(r, &[mg * group], dw, -3, 5) } else { tensor(r, &[], dw, -3, 5) })
+                    } else {
+                        None
+                    };
+                    let tagc = format!("{}x{},{tagc},xzp={},wzp={}", dx.name(), dw.name(), xz.is_some(),
+                        wz.as_ref().map(|w| if w.shape.is_empty() { "scalar" } else { "vector" }).unwrap_or("none"));
+                    c.input(tensor(r, &xs, dx, -9, 9)).input(tensor(r, &ws, dw, -5, 5)).opt_input(xz).opt_input(wz)
+                        .attr("auto_pad", auto_a).attr("dilations", dil_a).int("group", grp_a).attr("kernel_shape", ks_a)
+                        .attr("pads", pads.map(AV::Ints)).attr("strides", strides_a)
+                        .tag(tag).combo(tagc)
+                }
+            }
+        }
+        "MaxPool" | "AveragePool" => {
+            let nsp = *r.pick(&[1usize, 2, 2, 2, 3]);
+            let ks: Vec<usize> = (0..nsp).map(|_| r.range(1, 3) as usize).collect();
+            let strides: Vec<i64> = (0..nsp).map(|_| *r.pick(&[1i64, 1, 2, 3])).collect();
+            let ins: Vec<usize> = (0..nsp).map(|i| r.range(ks[i] as i64, 5) as usize).collect();
+            let auto = *r.pick(&["", "", "", "NOTSET", "VALID", "SAME_UPPER", "SAME_LOWER"]);
+            let explicit_pads = auto.is_empty() || auto == "NOTSET";
+            let pads: Option<Vec<i64>> = if explicit_pads && r.chance(2, 3) {
+                Some((0..2 * nsp).map(|i| r.range(0, ks[i % nsp] as i64 - 1)).collect())
+            } else {
+                None
+            };
+            let has_strides = r.chance(3, 4);
+            let ceil = if r.chance(1, 2) { Some(r.range(0, 1)) } else { None };
+            let dil: Option<Vec<i64>> = if r.chance(1, 5) { Some((0..nsp).map(|_| *r.pick(&[1i64, 1, 2])).collect()) } else { None };
+            let xs = [vec![r.range(1, 2) as usize, r.range(1, 2) as usize], ins].concat();
+            let mut x = tensor(r, &xs, Dt::F32, -9, 9);
+            let mut c = c;
+            let mut extra = String::new();
+            if op == "AveragePool" {
+                x.data.iter_mut().for_each(|v| *v *= 2520);
+                let cip = if r.chance(1, 2) { Some(r.range(0, 1)) } else { None };
+                c = c.int("count_include_pad", cip);
+                extra = format!(",count_include_pad={}", b2s(cip));
+            }
+            let tagc = format!("{}d,auto_pad={},pads={},strides={},ceil={},dil={}{extra}", nsp, if auto.is_empty() { "d" } else { auto },
+                pads.is_some(), has_strides, b2s(ceil), dil.is_some());
+            let tag = format!("auto_pad={},ceil={}{extra}", if auto.is_empty() { "NOTSET" } else { auto }, ceil == Some(1));
+            c.input(x).attr("auto_pad", (!auto.is_empty()).then(|| AV::Str(auto.into()))).int("ceil_mode", ceil)
+                .attr("dilations", dil.map(AV::Ints)).attr("kernel_shape", Some(AV::Ints(ks.iter().map(|k| *k as i64).collect())))
+                .attr("pads", pads.map(AV::Ints)).attr("strides", has_strides.then(|| AV::Ints(strides))).int("storage_order", None)
+                .tag(tag).combo(tagc)
+        }
+        "GlobalMaxPool" | "GlobalAveragePool" => {
+            let nsp = r.range(1, 3) as usize;
+            let sp: Vec<usize> = (0..nsp).map(|_| r.range(1, 3) as usize).collect();
+            let xs = [vec![r.range(1, 2) as usize, r.range(1, 3) as usize], sp.clone()].concat();
+            let mut x = tensor(r, &xs, Dt::F32, -9, 9);
+            if op == "GlobalAveragePool" {
+                let g = numel(&sp) as i64;
+                x.data.iter_mut().for_each(|v| *v *= g);
+            }
+            c.input(x).tag(format!("{nsp}d"))
+        }
+        "Resize" => {
+            let dt = *r.pick(&[Dt::F32, Dt::F32, Dt::F32, Dt::I32, Dt::U8]);
+            let rank = *r.pick(&[4usize, 4, 4, 3, 2]);
+            let mut xs: Vec<usize> = (0..rank).map(|_| r.range(1, 4) as usize).collect();
+            // scale factor per axis, in quarters; leading axes mostly 1
+            let mut q: Vec<i64> = (0..rank)
+                .map(|i| if i + 2 < rank && r.chance(4, 5) { 4 } else { *r.pick(&[1i64, 2, 4, 4, 8, 8, 16, 6, 12]) })
+                .collect();
+            let use_sizes = r.chance(1, 2);
+            for i in 0..rank {
+                // shrinking: keep the extent divisible so that sizes has an exact power-of-two ratio
+                if q[i] == 1 {
+                    xs[i] = 4;
+                } else if q[i] == 2 && xs[i] % 2 == 1 {
+                    xs[i] += 1;
+                }
+                if q[i] == 6 && xs[i] % 2 == 1 && use_sizes {
+                    q[i] = 8;
+                }
+            }
+            let cm = *r.pick(&["", "half_pixel", "pytorch_half_pixel", "asymmetric", "align_corners", "half_pixel_symmetric"]);
+            let nm = *r.pick(&["", "round_prefer_floor", "round_prefer_ceil", "floor", "ceil"]);
+            let mode = if r.chance(1, 2) { Some(AV::Str("nearest".into())) } else { None };
+            let x = tensor(r, &xs, dt, -9, 9);
+            let (scales, sizes) = if use_sizes {
+                (None, Some(T::i64s((0..rank).map(|i| (xs[i] as i64 * q[i] / 4).max(1)).collect())))
+            } else {
+                (Some(T::new(vec![rank], Dt::F32, q.clone()).den(4)), None)
+            };
+            let tag = format!("coord={},nearest={}", if cm.is_empty() { "d" } else { cm }, if nm.is_empty() { "d" } else { nm });
+            let tagc = format!("{},{tag},{},rank={rank}", dt.name(), if use_sizes { "sizes" } else { "scales" });
+            c.input(x).opt_input(None).opt_input(scales).opt_input(sizes)
+                .attr("coordinate_transformation_mode", (!cm.is_empty()).then(|| AV::Str(cm.into())))
+                .attr("nearest_mode", (!nm.is_empty()).then(|| AV::Str(nm.into()))).attr("mode", mode)
+                .tag(tag).combo(tagc)
+        }
+        "CastLike" => {
+            let (dt, tdt) = (any_dt(r), any_dt(r));
+            let s = dims(r, 0, 4, 4, true);
+            let (lo, hi) = if r.chance(1, 2) { (0, 100) } else { (-100, 100) };
+            let ts = dims(r, 0, 2, 2, true);
+            c.input(tensor(r, &s, dt, lo, hi)).input(tensor(r, &ts, tdt, 0, 5)).tag(format!("{}->{}", dt.name(), tdt.name()))
+        }
+        "Scatter" => {
+            let mut c2 = gen_case("ScatterElements", r);
+            c2.op = "Scatter".into();
+            // Scatter has no reduction attribute: keep only cases generated with unique targets
+            let unique = c2.attrs.iter().any(|(n, v)| n == "reduction" && match v {
+                None => true,
+                Some(AV::Str(s)) => s == "none",
+                _ => false,
+            });
+            c2.attrs.retain(|(n, _)| n != "reduction");
+            if !unique {
+                // duplicates possible -> the spec will say undefined where they occur
+                c2.combo.push_str(",maybe_dup");
+            }
+            return c2;
+        }
+        "Ceil" | "Floor" | "Round" | "IsInf" | "IsNaN" => {
+            let s = dims(r, 0, 4, 4, true);
+            c.input(tensor(r, &s, Dt::F32, -9, 9)).tag("f32".into())
+        }
+        "PRelu" => {
+            let s = dims(r, 0, 4, 4, true);
+            let mut ss = operand_shape(r, &s);
+            if r.chance(1, 6) {
+                ss = vec![];
+            }
+            c.input(tensor(r, &s, Dt::F32, -9, 9)).input(tensor(r, &ss, Dt::F32, -3, 3)).tag("f32".into())
+        }
+        "LeakyRelu" => {
+            let s = dims(r, 0, 4, 4, true);
+            let alpha = *r.pick(&[0i64, 1, 2, 3, -1]);
+            c.input(tensor(r, &s, Dt::F32, -9, 9)).attr("alpha", Some(AV::Flt(alpha))).tag("f32".into())
+        }
+        "ReverseSequence" => {
+            let dt = any_dt(r);
+            let s = dims(r, 2, 4, 4, false);
+            let (ba, ta): (Option<i64>, Option<i64>) = match r.below(3) {
+                0 => (None, None),
+                1 => (Some(1), Some(0)),
+                _ => (Some(0), Some(1)),
+            };
+            let b = ba.unwrap_or(1) as usize;
+            let t = ta.unwrap_or(0) as usize;
+            let llo = if r.chance(1, 8) { 0 } else { 1 };
+            let lens = vals(r, s[b], llo, s[t] as i64);
+            c.input(tensor(r, &s, dt, -9, 9)).input(T::i64s(lens)).int("batch_axis", ba).int("time_axis", ta)
+                .tag(format!("batch_axis={}", b2s(ba)))
+        }
+        "DequantizeLinear" => {
+            let dt = *r.pick(&[Dt::U8, Dt::I8, Dt::I32]);
+            let s = dims(r, 0, 4, 4, true);
+            let per_axis = !s.is_empty() && r.chance(1, 3);
+            let ax = r.below(s.len().max(1));
+            let ps: Vec<usize> = if per_axis { vec![s[ax]] } else if r.chance(1, 2) { vec![] } else { vec![1] };
+            let zp = r.chance(2, 3).then(|| tensor(r, &ps, dt, -5, 9));
+            let axis = if per_axis { if ax == 1 && r.chance(1, 2) { None } else { Some(maybe_neg(r, ax as i64, s.len())) } } else { None };
+            let t = format!("{},per_axis={per_axis},zp={}", dt.name(), zp.is_some());
+            c.input(tensor(r, &s, dt, -20, 20)).input(tensor(r, &ps, Dt::F32, 1, 4)).opt_input(zp).int("axis", axis).tag(t)
+        }
+        "QuantizeLinear" => {
+            let zdt = *r.pick(&[Dt::U8, Dt::I8]);
+            let s = dims(r, 0, 4, 4, true);
+            let per_axis = !s.is_empty() && r.chance(1, 3);
+            let ax = r.below(s.len().max(1));
+            let ps: Vec<usize> = if per_axis { vec![s[ax]] } else if r.chance(1, 2) { vec![] } else { vec![1] };
+            let zp = r.chance(2, 3).then(|| tensor(r, &ps, zdt, -5, 9));
+            let axis = if per_axis { if ax == 1 && r.chance(1, 2) { None } else { Some(maybe_neg(r, ax as i64, s.len())) } } else { None };
+            let mut sc = tensor(r, &ps, Dt::F32, 0, 2);
+            sc.data.iter_mut().for_each(|v| *v = 1 << *v); // 1, 2, 4
+            let (lo, hi) = if r.chance(1, 4) { (-600, 600) } else { (-40, 40) };
+            let t = format!("zp={},per_axis={per_axis}", zp.as_ref().map(|z| z.dt.name()).unwrap_or("none"));
+            c.input(tensor(r, &s, Dt::F32, lo, hi)).input(sc).opt_input(zp).int("axis", axis).tag(t)
+        }
         other => panic!("no generator for {other}"),
     };
     classify(&mut c);
@@ -1241,7 +1549,30 @@ fn classify(c: &mut Case) {
             let last = attr_int("select_last_index") == Some(1);
             Some(format!("{},{}", if ties { "ties" } else { "no_ties" }, if last { "select_last" } else { "select_first" }))
         }
-        "ScatterElements" => {
+        "MatMul" => {
+            let (a, b) = (t(0).unwrap(), t(1).unwrap());
+            Some(format!("{},{}", a.dt.name(), if b.shape.len() == 1 && a.shape.len() >= 3 {
+                "batched_matrix_times_vector"
+            } else if a.shape.len() == 1 && b.shape.len() >= 3 {
+                if b.data.is_empty() { "vector_times_empty_batched_matrix" } else { "vector_times_batched_matrix" }
+            } else {
+                "other"
+            }))
+        }
+        "MatMulInteger" => {
+            let (a, b) = (t(0).unwrap(), t(1).unwrap());
+            let ab: usize = a.shape[..a.shape.len().saturating_sub(2)].iter().product();
+            let bb: usize = b.shape[..b.shape.len().saturating_sub(2)].iter().product();
+            Some(if bb > 1 && ab < bb { "lhs_broadcast_over_rhs_batch".into() } else { "no_lhs_batch_broadcast".into() })
+        }
+        "MaxPool" | "AveragePool" => {
+            let auto = c.attrs.iter().find(|(n, _)| n == "auto_pad").and_then(|(_, v)| match v {
+                Some(AV::Str(s)) => Some(s.clone()),
+                _ => None,
+            });
+            Some(format!("auto_pad={}", auto.unwrap_or("NOTSET".into())))
+        }
+        "ScatterElements" | "Scatter" => {
             let (x, ind) = (t(0).unwrap(), t(1).unwrap());
             let rank = x.shape.len() as i64;
             let ax = attr_int("axis").unwrap_or(0);
@@ -1298,15 +1629,20 @@ pub fn main() {
     let seed = seed_from_env();
     // --first-id N: resume after the process died in case N-1 (cases are a function of (seed, op, j))
     let first_id = arg_usize("--first-id", 1);
+    // --unique-tags: triage aid, every failing case gets its own signature (and is printed by TLC)
+    let unique_tags = std::env::args().any(|a| a == "--unique-tags");
     let mut id = 0usize;
     for op in &ops {
         for j in 0..per {
             // every case has its own generator state: independent of --ops / --per
             let mut r = Rng::new(seed ^ fnv(op).wrapping_add((j as u64).wrapping_mul(0x9E3779B97F4A7C15)));
-            let c = gen_case(op, &mut r);
+            let mut c = gen_case(op, &mut r);
             id += 1;
             if id < first_id {
                 continue;
+            }
+            if unique_tags {
+                c.tag = format!("{}#{}", c.tag, id);
             }
             trace.emit(c.json(id));
             trace.flush();
